@@ -9,6 +9,7 @@ files with the specification's state; (3) longer random histories from tlc -simu
 import hashlib
 import json
 import os
+import time
 import shutil
 
 from lib import common, scratch
@@ -101,6 +102,10 @@ def _replay(hist):
                     # the three registration routes end in the same Add action of NamedFiles.tla
                     route = ("direct", "direct", "dict", "json")[(i + len(hist) + len(op["s"])) % 4]
                     spath = os.path.join("src", op["s"])
+                    if (i + len(hist)) % 2 == 0:
+                        # what a source file holds is its bytes, whatever its timestamp says (a restored backup, cp -p, rsync -t)
+                        old = time.time() - 86400
+                        os.utime(spath, (old, old))
                     if route == "direct":
                         cp.file_manager.add_named_file(name=op["n"], path=spath)
                     elif route == "dict":
